@@ -244,7 +244,8 @@ type TickerPlan struct {
 
 func genDJ(t *rapid.T, label string) (int64, int64) {
 	// (1<<62 + 5: with jitter d-1 twice the jitter no longer fits a Duration; the fake clock can still carry one such period)
-	d := rapid.SampledFrom([]int64{1, 2, 1000, int64(time.Millisecond), int64(time.Second), int64(time.Hour), 1 << 60, 1<<62 + 5, 1<<62 + 1<<61, math.MaxInt64}).Draw(t, label+"d") // the last two: d + jitter no longer fits either
+	d := rapid.SampledFrom([]int64{1, 2, 1000, int64(time.Millisecond), int64(time.Second), int64(time.Hour), 1 << 60, 1<<62 + 5, 1<<62 + 1<<61, math.MaxInt64,
+		int64(time.Second) + 499_000, 13 * int64(time.Second) / 9, 3*int64(time.Second) + 480_001}).Draw(t, label+"d") // the last two: d + jitter no longer fits either
 	var j int64
 	switch rapid.IntRange(0, 4).Draw(t, label+"jclass") {
 	case 0:
@@ -255,6 +256,9 @@ func genDJ(t *rapid.T, label string) (int64, int64) {
 		j = d / 2
 	case 3:
 		j = d / 10
+		if d > int64(time.Millisecond) && rapid.Bool().Draw(t, label+"tinyj") {
+			j = 20_000 // a jitter far below a millisecond on a period far above one
+		}
 	default:
 		j = rapid.Int64Range(0, d-1).Draw(t, label+"j")
 	}
